@@ -69,6 +69,8 @@ def plan_run(run_seed, prop):
         "bounding": tp.weighted([("native", 6), ("caller", 1)]),
         "rerun": tp.chance(0.35),
         "gateset_style": tp.choice(["direct", "direct", "copied"]),
+        "disturb": tp.weighted([(None, 5), ("interrupt", 2), ("unitary_raises", 1.5), ("nested_run", 1.5)]),
+        "disturb_at": tp.random(),
         "scan": tp.chance(0.4),
         "tapes": None,
     }
@@ -436,6 +438,71 @@ def execute(plan):
                 viol.add("C03", "rerun_state_identical", "mismatch", "A")
             log.append(("rerun", "ok", result_digest(b)))
 
+    # --- a disturbed emulation of the same circuit object (cancelled at line event k, a gate
+    # matrix that raises, or another emulation started from inside a gate matrix), then a
+    # clean one: the clean one must again satisfy every oracle of C03 / C08 / C15
+    if okA and plan.get("disturb") and circuits.get("A") is not None:
+        cA = circuits["A"]
+        kind = plan["disturb"]
+        frac = plan.get("disturb_at", 0.5)
+
+        class SimFault(Exception):
+            pass
+
+        sD = seams.SimSampler(st.get("sampler:disturbed"), "faithful")
+        oldD = seams.install_sampler(sD)
+        try:
+            if kind == "interrupt":
+                k = 1 + int(frac * max(results["A"]["outcome"].get("steps", 1000), 50))
+                od = seams.outcome_of(lambda: run_jaqal_circuit(cA), clock, budget, inject_at=k)
+            else:
+                at = int(frac * (len(M.static_order) + 1))
+                count = [0]
+
+                def cb(name, argv):
+                    count[0] += 1
+                    if count[0] - 1 != at:
+                        return
+                    GS.CALLBACK = None
+                    if kind == "unitary_raises":
+                        raise SimFault(name)
+                    other = circuits.get("B") or circuits.get("A-perm") or cA
+                    sN = seams.SimSampler(st.get("sampler:nested"), "adversarial")
+                    o_ = seams.install_sampler(sN)
+                    try:
+                        run_jaqal_circuit(other)
+                    finally:
+                        seams.install_sampler(o_)
+
+                GS.CALLBACK = cb
+                od = seams.outcome_of(lambda: run_jaqal_circuit(cA), clock, 3 * budget)
+                GS.CALLBACK = None
+        finally:
+            GS.CALLBACK = None
+            seams.install_sampler(oldD)
+        fired = od["kind"] in ("interrupt", "exc:SimFault") or kind == "nested_run"
+        if fired:
+            probe("disturbed:" + kind)
+        log.append(("disturb", kind, od["kind"]))
+        if kind == "nested_run" and od["kind"] == "ok":
+            check_result(viol, "outer run with a nested emulation", od["value"], M, R, sD, "faithful")
+        sC = seams.SimSampler(st.get("sampler:after-disturbance"), "faithful")
+        oldC = seams.install_sampler(sC)
+        try:
+            oc = seams.outcome_of(lambda: run_jaqal_circuit(cA), clock, budget)
+        finally:
+            seams.install_sampler(oldC)
+        if oc["kind"] == "ok":
+            check_result(viol, "clean run after %s" % kind, oc["value"], M, R, sC, "faithful")
+            log.append(("after-disturb", result_digest(oc["value"])))
+        elif oc["kind"] == "nonterm":
+            viol.add("C08", "termination", "nonterm", oc["where"], "clean run after %s" % kind)
+        else:
+            msg = "clean run after %s: %s: %s" % (kind, oc["kind"], oc["exc"])
+            viol.add("C03", "valid_program_runs", oc["kind"], oc["where"], msg)
+            viol.add("C08", "valid_program_runs", oc["kind"], oc["where"], msg)
+            log.append(("after-disturb", oc["kind"]))
+
     # --- C03: a scan of override dictionaries over ONE parsed circuit object
     if plan.get("scan") and prog["lets"] and scratch is None:
         from jaqalpaq.parser import parse_jaqal_string
@@ -723,6 +790,8 @@ def candidates(plan):
         yield variant(bounding="native")
     if plan.get("scan"):
         yield variant(scan=False)
+    if plan.get("disturb"):
+        yield variant(disturb=None)
     if plan.get("gateset_style", "direct") != "direct":
         yield variant(gateset_style="direct")
     for k in list(plan["overrides"] or {}):
@@ -758,8 +827,8 @@ ASSUMPTIONS = [
     "the step clock sees Python line events only; a hang inside C code would surface as a wall-clock kill (exit 2), not as a verdict",
 ]
 EXPECTED_PROBES = {
-    "C03": ["feat:parallel_block", "branch_order_permuted", "feat:alias_chain_depth>=2", "feat:macro_call", "overrides", "rerun_same_object", "override_scan", "feat:idle_gate", "feat:gate_without_unitary", "feat:let_sized_register", "feat:strided_slice"],
-    "C08": ["zero_loop_around_bracket", "feat:zero_loop", "feat:loop_count_by_name", "let_overridden_to_0", "feat:repeated_prepare", "feat:trailing_prepare", "feat:macro_call", "hw_three_encodings", "feat:subcircuit_block"],
+    "C03": ["feat:parallel_block", "branch_order_permuted", "feat:alias_chain_depth>=2", "feat:macro_call", "overrides", "rerun_same_object", "override_scan", "disturbed:interrupt", "disturbed:unitary_raises", "disturbed:nested_run", "feat:idle_gate", "feat:gate_without_unitary", "feat:let_sized_register", "feat:strided_slice"],
+    "C08": ["disturbed:interrupt", "disturbed:nested_run", "zero_loop_around_bracket", "feat:zero_loop", "feat:loop_count_by_name", "let_overridden_to_0", "feat:repeated_prepare", "feat:trailing_prepare", "feat:macro_call", "hw_three_encodings", "feat:subcircuit_block"],
     "C09": ["c09_pair", "c09_structure", "feat:macro_call", "feat:loop"],
     "C15": ["hw_three_encodings", "sampler_outcome_p<0.01", "visits", "job_executed_twice"],
 }
